@@ -292,6 +292,9 @@ func (h *H) publisherOf(parent *NodeRT) kcache.Publisher {
 	return parent.Pub
 }
 
+// PublisherOf: the publisher behind a node (nil = the root controller).
+func (h *H) PublisherOf(n *NodeRT) kcache.Publisher { return h.publisherOf(n) }
+
 func (h *H) CacheOf(n *NodeRT) kcache.CacheReader {
 	switch {
 	case n == nil:
